@@ -26,12 +26,22 @@ import (
 var c17Extra func(f []string) (string, bool)
 var c17ExtraGen func(r *Rand, tier string) []string
 
+// set by c17pool.go (build tag c17 only): pool / overlap ops, their generator, and the child-process isolation
+var c17PoolRun func(f []string) (string, bool)
+var c17PoolGen func(r *Rand, tier string) []string
+var c17Isolate func(f []string) string
+
 func c17Run(f []string) string {
 	if s, ok := exprRun(f); ok {
 		return canonPanic(s)
 	}
 	if c17Extra != nil {
 		if s, ok := c17Extra(f); ok {
+			return s
+		}
+	}
+	if c17PoolRun != nil {
+		if s, ok := c17PoolRun(f); ok {
 			return s
 		}
 	}
@@ -529,6 +539,9 @@ func c17GenCases(r *Rand, tier string) []string {
 	if c17ExtraGen != nil {
 		out = append(out, c17ExtraGen(r, tier)...)
 	}
+	if c17PoolGen != nil {
+		out = append(out, c17PoolGen(r, tier)...)
+	}
 	if tier == "thorough" {
 		out = append(out, c17Exhaustive()...)
 	}
@@ -622,6 +635,12 @@ func c17Stats(cases []string) map[string]int {
 		case "spec":
 			st["spec."+f[1]]++
 			continue
+		case "pool":
+			st["pool.size."+f[1]]++
+			continue
+		case "overlap":
+			t = string(UnHex(f[2]))
+			st[fmt.Sprintf("overlap.workers.%d", (len(f)-4)/2)]++
 		default:
 			continue
 		}
@@ -656,5 +675,10 @@ func c17Stats(cases []string) map[string]int {
 }
 
 func init() {
-	Register("C17", &Prop{Gen: c17GenCases, Run: c17Run, Stats: c17Stats})
+	Register("C17", &Prop{Gen: c17GenCases, Stats: c17Stats, Run: func(f []string) string {
+		if c17Isolate != nil { // every case in a child process: a fatal runtime error is an answer, not the end of the run
+			return c17Isolate(f)
+		}
+		return c17Run(f)
+	}})
 }
